@@ -1,8 +1,11 @@
 #!/bin/bash
-# Full .vo build of the Coq development (no -vos). Usage: build.sh [jobs]
+# Full .vo build of the Coq development (no -vos). Usage: build.sh [jobs] [target.vo ...]
+# With targets only those files and what they depend on are (re)built; -k keeps going past a
+# broken file so that one property's broken proof does not hide the others.
 set -e
 cd "$(dirname "$0")"
 J=${1:-16}
+shift || true
 { echo "-Q . TV"; echo "-arg -w -arg -notation-overridden,-deprecated-hint-without-locality,-deprecated-instance-without-locality"; find . -name '*.v' | sed 's|^\./||' | LC_ALL=C sort; } > _CoqProject.new
 if ! cmp -s _CoqProject.new _CoqProject 2>/dev/null || [ ! -f Makefile ]; then
   mv _CoqProject.new _CoqProject
@@ -12,7 +15,7 @@ else
 fi
 ulimit -s unlimited 2>/dev/null || true
 set +e
-timeout 3000 make -j"$J" > .build.log 2>&1
+timeout ${VERIF_MAKE_TIMEOUT:-1500} make -k -j"$J" "$@" > .build.log 2>&1
 rc=$?
 grep -v -E '^(COQDEP|COQC|CLEAN|make)' .build.log | tail -60
 exit $rc
